@@ -102,6 +102,17 @@ auto tuple_to_tuple(Tuple const& t, boost::mp11::index_sequence<I...>)
 }
 
 /// \ingroup Histogram-Helpers
+/// \brief Raises every component of t1 to the corresponding component of t2 where that one is greater
+///
+template <typename Tuple, std::size_t... I>
+void tuple_component_max(Tuple& t1, Tuple const& t2, boost::mp11::index_sequence<I...>)
+{
+    int const unused[] = {
+        0, ((std::get<I>(t1) = std::get<I>(t1) < std::get<I>(t2) ? std::get<I>(t2) : std::get<I>(t1)), 0)...};
+    static_cast<void>(unused);
+}
+
+/// \ingroup Histogram-Helpers
 ///
 template <typename Tuple, std::size_t... I>
 bool tuple_compare(Tuple const& t1, Tuple const& t2, boost::mp11::index_sequence<I...>)
@@ -725,6 +736,20 @@ auto cumulative_histogram(histogram<T...> const& hist) -> histogram<T...>
             });
             cumulative_hist[v1.first] = cumulative_counter;
         });
+        // The last bin -- the greatest key of every axis -- holds the total; in a sparse
+        // histogram no pixel need have fallen there, so that no bin held the total at all
+        if (hist.begin() != hist.end())
+        {
+            auto last_key = hist.begin()->first;
+            auto total    = static_cast<typename histogram_t::mapped_type>(0);
+            std::for_each(hist.begin(), hist.end(), [&](value_t const& v) {
+                detail::tuple_component_max(
+                    last_key, v.first,
+                    boost::mp11::make_index_sequence<histogram_t::dimension()>{});
+                total += v.second;
+            });
+            cumulative_hist[last_key] = total;
+        }
     }
     return cumulative_hist;
 }
